@@ -1,4 +1,6 @@
 """C12 - All instances agree on where processes run, and that view is true (cluster simulator, quiescence oracle)."""
+from hypothesis import strategies as st
+
 from clustersim.episode import Profile, episode_st
 from clustersim.monitors import RestartTracker, live_view, components
 from clustersim.world import Monitor
@@ -29,7 +31,7 @@ class P(Profile):
     n_max = 4
     apps_max = 2
     progs_max = 2
-    fault_ops = ('crash', 'restart', 'restart', 'cut', 'mute', 'isolate', 'heal', 'heal_all', 'boot')
+    fault_ops = ('crash', 'restart', 'restart', 'restart_checked', 'restart_checked', 'cut', 'mute', 'isolate', 'heal', 'heal_all', 'boot')
     proc_ops = ('exit', 'direct_start', 'direct_start', 'direct_start', 'direct_stop', 'direct_stop')
     user_ops = ()
     op_rate = 0.45
@@ -45,6 +47,21 @@ class P(Profile):
     running_failure = ('CONTINUE',)
     sync_sets = ('TIMEOUT', 'LIST,TIMEOUT', 'CORE,TIMEOUT')
     autorestart = ('false', 'false', 'true')
+
+
+class PJoin(P):
+    """Joins during long DISTRIBUTION phases (the newcomer stays CHECKED until OPERATION) and restarts of the instances
+    that are in the handshake window of somebody."""
+    startsecs = (12, 12, 6)
+    sequences = (1, 2, 3)
+    progs_max = 3
+    late_boot = 0.7
+    warmups = (15, 20, 30)
+    fault_ops = ('restart_checked', 'restart_checked', 'restart_checked', 'restart', 'boot', 'crash')
+    proc_ops = ('direct_start', 'direct_start', 'direct_stop', 'exit')
+    op_rate = 0.5
+    hold_rate = 0.1
+    inject_rate = 0.2
 
 
 class ActivityMonitor(Monitor):
@@ -163,7 +180,21 @@ def evaluate(runner, monitors):
                 kind = 'stale-listed' if ident in extra else 'missing-listed'
                 why = ''
                 if (x.nick, peer.nick) in stale_pairs:
-                    sig = 'undetected-quick-restart'
+                    # the known gap is a restart, faster than the detection, of a peer that the observer holds RUNNING;
+                    # a restart while the handshake is in progress (CHECKING / CHECKED) is detected by the TICK counter
+                    # NOTE: the documented mechanism reveals a quick restart by a TICK counter that goes back; the known
+                    #       gap is the restart of a peer whose counter was still about 0 for the observer (young peer,
+                    #       or counter reset because the observer did not hold it active). A restart that is not seen
+                    #       although the observer held an active peer with a higher counter is another matter
+                    #       (the counter comparison itself noticed nothing: no "stealth restart" warning of the observer)
+                    held = tracker.restart_context(world, x.nick, peer.nick)
+                    state, counter, t_restart = (held.split(':') + ['', '', ''])[:3]
+                    noticed = any('stealth restart' in msg and peer.identifier in msg and t >= float(t_restart or 0) - 1
+                                  for t, _lvl, msg in (x.all_records + x.logger.records))
+                    if state in ('CHECKING', 'CHECKED', 'RUNNING') and int(counter or 0) >= 3 and not noticed:
+                        sig = f'undetected-restart:tick-counter-went-back-unnoticed:held-{state}'
+                    else:
+                        sig = 'undetected-quick-restart'
                 else:
                     t_change = activity.last_change.get((peer.idx, namespec))
                     win = activity.windows.get((x.idx, x.incarnation, ident))
@@ -215,7 +246,8 @@ def classify(runner, monitors, episode):
     return nontrivial, classes
 
 
-CHECK = EpisodeCheck(PROPERTY_ID, episode_st(P), make_monitors, evaluate, classify, quick=800, thorough=12000,
+CHECK = EpisodeCheck(PROPERTY_ID, st.one_of(episode_st(P), episode_st(P), episode_st(PJoin)), make_monitors, evaluate, classify,
+                     quick=1000, thorough=14000,
                      suffix_kwargs={'ticks': 14, 'boot_dead': None})
 
 
